@@ -14,6 +14,18 @@ _ROW_LOOP_FIXED = ("    for peer in peers:\n        indexedShares = []\n        
                    "                    indexedShares.append(share_to_index[s])\n"
                    "        graph.insert(peer_to_index[peer], indexedShares)\n")
 
+_CMG_UPD = ("            flow_function[u][v] += delta\n            flow_function[v][u] -= delta\n"
+            "            residual_graph, residual_function = residual_network(graph,flow_function)\n")
+_CMG_LOOP = ("    while augmenting_path_for(residual_graph):\n        path = augmenting_path_for(residual_graph)\n"
+             "        # Delta is the largest amount that we can increase flow across\n"
+             "        # all of the edges in path. Because of the way that the residual\n"
+             "        # function is constructed, f[u][v] for a particular edge (u, v)\n"
+             "        # is the amount of unused capacity on that edge. Taking the\n"
+             "        # minimum of a list of those values for each edge in the\n"
+             "        # augmenting path gives us our delta.\n"
+             "        delta = min(residual_function[u][v] for (u, v) in path)\n"
+             "        for (u, v) in path:\n" + _CMG_UPD)
+
 MUTANTS = [
     # ---- C07.1 R9 loop-escape alias
     M("r9-row-list-hoisted", HU,
@@ -121,6 +133,94 @@ MUTANTS = [
     M("candidate-server-discarded", HU,
       "    new_peers = set(peers) - existing_peers - used_peers\n",
       "    new_peers = set(peers) - existing_peers - used_peers\n    new_peers.discard(sorted(new_peers)[0]) if len(new_peers) > 1 else None\n", "C07.5"),
+
+    # ---- C07.6 skew-symmetric update of the placement matching (_compute_maximum_graph)
+    M("cmg-mirror-dropped-rebuild-hoisted", HU, _CMG_UPD, "            flow_function[u][v] += delta\n"
+      "        residual_graph, residual_function = residual_network(graph, flow_function)\n", "C07.6",
+      note="the seeded change C07-A: mirrored update dropped as a 'dead store', rebuild moved after the path"),
+    M("cmg-mirror-same-cell", HU, "            flow_function[v][u] -= delta\n", "            flow_function[u][v] -= delta\n", "C07.6"),
+    M("cmg-mirror-only-on-network-edges", HU, "            flow_function[v][u] -= delta\n",
+      "            if v in graph[u]:\n                flow_function[v][u] -= delta\n", "C07.6",
+      note="a path edge that is a reversed (share -> server) edge is exactly the one that needs the mirrored entry"),
+    M("cmg-forward-overwritten", HU, "            flow_function[u][v] += delta\n", "            flow_function[u][v] = delta\n            flow_function[u][v] += 0\n", "C07.6"),
+    M("cmg-mirror-doubled", HU, "            flow_function[v][u] -= delta\n", "            flow_function[v][u] -= 2 * delta\n", "C07.6"),
+    M("cmg-flow-matrix-shared-rows", HU, "    flow_function = [[0 for sh in range(dim)] for s in range(dim)]\n",
+      "    flow_function = [[0] * dim] * dim\n", "C07.6"),
+    M("cmg-update-loop-over-stale-path", HU, "        for (u, v) in path:\n            flow_function[u][v] += delta\n",
+      "        for (u, v) in augmenting_path_for(graph):\n            flow_function[u][v] += delta\n", ["C07.6", "C07.7"]),
+    M("upd-benign-assign-form", HU, "            flow_function[v][u] -= delta\n",
+      "            flow_function[v][u] = flow_function[v][u] - delta\n", None),
+    M("upd-benign-reordered-pair", HU, "            flow_function[u][v] += delta\n            flow_function[v][u] -= delta\n",
+      "            flow_function[v][u] -= delta\n            flow_function[u][v] += delta\n", None),
+    M("upd-benign-unit-delta", HU, "            flow_function[u][v] += delta\n            flow_function[v][u] -= delta\n",
+      "            flow_function[u][v] += 1\n            flow_function[v][u] -= 1\n", None),
+    M("upd-benign-row-multiplication", HU, "    flow_function = [[0 for sh in range(dim)] for s in range(dim)]\n",
+      "    flow_function = [[0] * len(graph) for s in range(len(graph))]\n", None),
+    M("upd-benign-rebuild-after-path", HU, _CMG_UPD, "            flow_function[u][v] += delta\n            flow_function[v][u] -= delta\n"
+      "        residual_graph, residual_function = residual_network(graph, flow_function)\n", None,
+      note="the other half of C07-A alone: one rebuild per augmenting path keeps the residual fresh wherever it is read"),
+
+    # ---- C07.7 residual freshness of the placement matching
+    M("cmg-recompute-dropped", HU,
+      "            residual_graph, residual_function = residual_network(graph,flow_function)\n", "", "C07.7"),
+    M("cmg-recompute-only-when-more", HU,
+      "            residual_graph, residual_function = residual_network(graph,flow_function)\n",
+      "            if delta > 1:\n                residual_graph, residual_function = residual_network(graph,flow_function)\n", "C07.7"),
+    M("cmg-initial-residual-dropped", HU,
+      "    residual_graph, residual_function = residual_network(graph, flow_function)\n\n    while augmenting_path_for(residual_graph):\n",
+      "    while augmenting_path_for(residual_graph):\n", "C07.7",
+      note="the loop test reads a residual graph that was never computed (UnboundLocalError on every placement)"),
+    M("cmg-residual-of-residual", HU,
+      "            residual_graph, residual_function = residual_network(graph,flow_function)\n",
+      "            residual_graph, residual_function = residual_network(residual_graph,flow_function)\n", "C07.7"),
+    M("cmg-path-searched-in-network", HU, "        path = augmenting_path_for(residual_graph)\n", "        path = augmenting_path_for(graph)\n",
+      ["C07.7", "C07.6"]),
+    M("cmg-one-augmentation-only", HU,
+      "    while augmenting_path_for(residual_graph):\n        path = augmenting_path_for(residual_graph)\n",
+      "    if augmenting_path_for(residual_graph):\n        path = augmenting_path_for(residual_graph)\n", "C07.7"),
+    M("cmg-readback-from-network", HU, "        peer = residual_graph[shareIndex]\n", "        peer = graph[shareIndex]\n", "C07.7",
+      note="graph[share] is always [sink]: every share is declared unmatched"),
+    M("cmg-shortcut-empty-result", HU, "    if graph == []:\n        return {}\n",
+      "    if graph == [] or not augmenting_path_for(graph):\n        return {}\n", "C07.7",
+      note="no share gets a key at all (not even None), so the placement loses those share numbers"),
+    M("fresh-benign-single-search", HU, _CMG_LOOP,
+      "    while True:\n        path = augmenting_path_for(residual_graph)\n        if not path:\n            break\n"
+      "        delta = min(residual_function[u][v] for (u, v) in path)\n"
+      "        for (u, v) in path:\n            flow_function[u][v] += delta\n            flow_function[v][u] -= delta\n"
+      "        residual_graph, residual_function = residual_network(graph, flow_function)\n", None),
+    M("fresh-benign-rebuild-at-loop-top", HU,
+      "    residual_graph, residual_function = residual_network(graph, flow_function)\n\n" + _CMG_LOOP,
+      "    while True:\n        residual_graph, residual_function = residual_network(graph, flow_function)\n"
+      "        path = augmenting_path_for(residual_graph)\n        if not path:\n            break\n"
+      "        delta = min(residual_function[u][v] for (u, v) in path)\n"
+      "        for (u, v) in path:\n            flow_function[u][v] += delta\n            flow_function[v][u] -= delta\n", None),
+    M("fresh-benign-empty-test-form", HU, "    if graph == []:\n        return {}\n", "    if not graph or not shareIndices:\n        return {}\n", None),
+    M("fresh-benign-readback-hoisted-sink", HU, "        if peer == [dim - 1]:\n", "        if [len(graph) - 1] == peer:\n", None),
+    M("fresh-benign-renamed-residual", HU, _CMG_LOOP + "\n    new_mappings = {}\n    for shareIndex in shareIndices:\n        peer = residual_graph[shareIndex]\n",
+      (_CMG_LOOP + "\n    new_mappings = {}\n    for shareIndex in shareIndices:\n        peer = residual_graph[shareIndex]\n").replace(
+          "residual_graph", "rgraph").replace("residual_function", "rcap"), None,
+      edits=[(HU, "    residual_graph, residual_function = residual_network(graph, flow_function)\n\n    while",
+              "    rgraph, rcap = residual_network(graph, flow_function)\n\n    while")]),
+
+    # ---- C07.8 helpers of the placement matching
+    M("rn-saturation-test-flipped", HU, "            if f[i][v] == 1:\n", "            if f[i][v] == 0:\n", "C07.8"),
+    M("rn-reverse-edge-not-added", HU, "                new_graph[v].append(i)\n                cf[v][i] = 1\n",
+      "                cf[v][i] = 1\n", "C07.8", note="a used edge can never be re-routed: greedy instead of maximum matching"),
+    M("rn-residual-rows-shared", HU, "    new_graph = [[] for i in range(len(graph))]\n", "    new_graph = [[]] * len(graph)\n", "C07.8"),
+    M("apf-path-from-wrong-sink", HU, "        n = len(graph) - 1\n", "        n = len(graph) - 2\n", "C07.8"),
+    M("apf-search-from-vertex-one", HU, "    bfs_tree = bfs(graph, 0)\n", "    bfs_tree = bfs(graph, 1)\n", "C07.8"),
+    M("bfs-not-coloured", HU, "                color[v] = GRAY\n", "", "C07.8"),
+    M("bfs-enqueue-unless-black", HU, "            if color[v] == WHITE:\n", "            if color[v] != BLACK:\n", "C07.8"),
+    M("bfs-no-predecessor", HU, "                predecessor[v] = n\n", "", "C07.8"),
+    M("helper-benign-flipped-compare", HU, "            if f[i][v] == 1:\n", "            if 1 == f[i][v]:\n", None),
+    M("helper-benign-depth-first", HU, "        n = queue.pop(0)\n", "        n = queue.pop()\n", None,
+      note="any augmenting path leads to a maximum matching"),
+    M("helper-benign-white-compare", HU, "            if color[v] == WHITE:\n", "            if WHITE == color[v]:\n", None),
+    M("vanish-residual-network", HU, "def residual_network(graph, f):", "def residual_networkX(graph, f):", "ANALYSIS-ERROR",
+      edits=[(HU, "    residual_graph, residual_function = residual_network(graph, flow_function)\n\n    while",
+              "    residual_graph, residual_function = residual_networkX(graph, flow_function)\n\n    while"),
+             (HU, "            residual_graph, residual_function = residual_network(graph,flow_function)\n",
+              "            residual_graph, residual_function = residual_networkX(graph,flow_function)\n")]),
 
     # ---- vanished anchors
     M("vanish-flow-graph", HU, "def _servermap_flow_graph(peers, shares, servermap):", "def _servermap_flow_graphX(peers, shares, servermap):",
